@@ -212,3 +212,24 @@ def get_func(ix: Index, mod: str, qual: str) -> FuncInfo:
 
 def stmt_text(n: ast.AST) -> str:
     return norm(n).splitlines()[0][:120]
+
+
+# ---------------------------------------------------------------- polarity-insensitive guards
+def guarded(ck, fi, cfg, targets, atom_pred, rule, key, ok_msg, bad_msg, require_raise=True, raise_msg=None):
+    """Every live target node is reachable only over an edge on which an atom matching `atom_pred` holds (whatever
+    the spelling: `if a: raise` / `if not a: ... else: raise`, `x in t` / `x not in t`, conjunctions), and - when
+    `require_raise` - the opposite edge of each such test leads only to raise.  Emits obligations; returns #targets."""
+    from . import shape
+    safe = shape.guard_edges(cfg, atom_pred, want=True)
+    tl = live(cfg, targets)
+    for t in tl:
+        p = shape.reachable_without(cfg, [t], safe)
+        ck.check(bool(safe) and p is None, rule, key, fi.loc(cfg.nodes[t].ast), ok_msg, bad_msg, witness(cfg, p))
+    if require_raise:
+        for (g, lab) in sorted(set(safe)):
+            # only guards that actually protect a target matter
+            if not any(t in cfg.reach([v for (v, l2) in cfg.succ[g] if l2 == lab]) for t in tl):
+                continue
+            p = edge_leads_only_to_raise(cfg, g, "f" if lab == "t" else "t", also_forbid=tl)
+            ck.check(p is None, rule, key + "|failing-side-raises", fi.loc(cfg.nodes[g].ast), "the failing side of the guard only raises", raise_msg or (bad_msg + " (the failing side of the guard does not raise)"), witness(cfg, p))
+    return len(tl)
